@@ -1,4 +1,64 @@
 import TongoModel.BitOps
-/-! Property C06 — bit-string and cell read/write primitives behave like an ideal bit list. -/
+import TongoProofs.Lemmas.BitStringUint
+/-! Property C06 — bit-string and cell read/write primitives behave like an ideal bit list.
+Property theorems only; helper lemmas live in `TongoProofs/Lemmas/BitString*.lean`.
+
+`abs s = (bytesToBits s.buf).take s.len` is the abstraction, `Inv` the representation invariant
+(`len ≤ cap ≤ 8·|buf|`, `rCursor ≤ len`, all buffer bits from `len` on are zero), `nextBits s n` the next `n` unread
+bits of `abs s`. -/
 namespace Tongo.C06
+open Tongo Tongo.Bits Tongo.BitString
+
+/-- `NewBitString(n)` is empty and satisfies the invariant. -/
+theorem new_inv (n : Nat) : Inv (BitString.new n) ∧ abs (BitString.new n) = [] := ⟨inv_new n, abs_new n⟩
+
+/-- A single-bit write that fits appends exactly that bit and keeps the invariant, capacity and cursor. -/
+theorem writeBit_refines (v : Bool) (s : BitString) (hi : Inv s) (h : s.len < s.cap) :
+    ∃ s', writeBit v s = (.ok (), s') ∧ abs s' = abs s ++ [v] ∧ Inv s' ∧ s'.cap = s.cap ∧ s'.rCursor = s.rCursor := by
+  obtain ⟨s', a, b, c, d, e, _⟩ := writeBit_ok v s hi h
+  exact ⟨s', a, b, c, d, e⟩
+
+/-- Writing any list of bits (`WriteBitArray`): success iff it fits; on overflow the error is returned after the prefix
+that fits was appended — in both cases the previously written bits are intact and the invariant holds. -/
+theorem writeBits_refines (l : List Bool) (s : BitString) (hi : Inv s) :
+    ∃ s', writeBitArray l s = (if s.len + l.length ≤ s.cap then .ok () else .err errOverflow, s') ∧
+      abs s' = abs s ++ l.take (s.cap - s.len) ∧ Inv s' ∧ s'.cap = s.cap ∧ s'.rCursor = s.rCursor :=
+  writeBitArray_spec l s hi
+
+/-- `WriteUint(v, n)` writes exactly the `n` low bits of `v`, most significant first. -/
+theorem writeUint_is_bits (v n : Nat) : writeUint v n = writeBitArray (natToBits n v) := writeUint_eq v n
+
+/-- `ReadUint` on the byte-aligned path (cursor and width multiples of 8). -/
+theorem readUint_aligned (n : Nat) (s : BitString) (hi : Inv s) (hn : n ≤ 64) (h : s.rCursor + n ≤ s.len)
+    (_ha : s.rCursor % 8 = 0 ∧ n % 8 = 0) :
+    readUint n s = (.ok (bitsToNat (nextBits s n)), { s with rCursor := s.rCursor + n }) :=
+  readUint_ok n s hi.len_le_buf hn h
+
+/-- `ReadUint` on the shifted 8-byte load path (`n < 57`, not both aligned), including loads that reach the end of the
+buffer (zero padded). -/
+theorem readUint_lt57 (n : Nat) (s : BitString) (hi : Inv s) (hn : n < 57) (h : s.rCursor + n ≤ s.len)
+    (_ha : ¬ (s.rCursor % 8 = 0 ∧ n % 8 = 0)) :
+    readUint n s = (.ok (bitsToNat (nextBits s n)), { s with rCursor := s.rCursor + n }) :=
+  readUint_ok n s hi.len_le_buf (by omega) h
+
+/-- `ReadUint` on the bit-loop path (57..64 bits, not both aligned). -/
+theorem readUint_loop (n : Nat) (s : BitString) (hi : Inv s) (hn : 57 ≤ n ∧ n ≤ 64) (h : s.rCursor + n ≤ s.len)
+    (_ha : ¬ (s.rCursor % 8 = 0 ∧ n % 8 = 0)) :
+    readUint n s = (.ok (bitsToNat (nextBits s n)), { s with rCursor := s.rCursor + n }) :=
+  readUint_ok n s hi.len_le_buf hn.2 h
+
+/-- `ReadUint(n)` for every cursor offset and every width 0..64: the big-endian value of the next `n` bits, cursor
+advanced by `n` (all three code paths). -/
+theorem readUint_refines (n : Nat) (s : BitString) (hi : Inv s) (hn : n ≤ 64) (h : s.rCursor + n ≤ s.len) :
+    readUint n s = (.ok (bitsToNat (nextBits s n)), { s with rCursor := s.rCursor + n }) :=
+  readUint_ok n s hi.len_le_buf hn h
+
+/-- A `ReadUint` beyond the written length is an error and leaves the state (cursor included) unchanged. -/
+theorem readUint_underflow (n : Nat) (s : BitString) (hn : n ≤ 64) (h : s.len < s.rCursor + n) :
+    readUint n s = (.err errNotEnough, s) := BitString.readUint_underflow n s hn h
+
+/-- Non-vacuity (a test on literals, not a proof of the property): a reachable state satisfying the hypotheses. -/
+example : let s := (writeUint 0x2ABCD 18 (BitString.new 20)).2
+    Inv s ∧ s.rCursor + 18 ≤ s.len ∧ (readUint 18 s).1 = .ok 0x2ABCD := by decide +kernel
+
 end Tongo.C06
